@@ -62,6 +62,14 @@ def consume (s : SSt) (n : Nat) : Option (SSt × Nat) :=
     dc := consume_link_credit.assign_delivery_count_0 n s.dc
     lc := consume_link_credit.assign_link_credit_0 n s.lc }, s.dc)
 
+/-- `TryConsume::try_consume` (the non-waiting taker behind the rollback of a dropped transaction):
+    its own test and arithmetic, regenerated from the source -/
+def tryConsume (s : SSt) (n : Nat) : Option (SSt × Nat) :=
+  if try_consume.cond_if_0 n s.lc then none
+  else some ({ s with
+    dc := try_consume.assign_delivery_count_0 n s.dc
+    lc := try_consume.assign_link_credit_0 n s.lc }, s.dc)
+
 inductive Op where
   | flow (f : LFlow)
   | send           -- one delivery: consume(1), however many frames carry it
